@@ -765,6 +765,8 @@ def r4(ctx):
         kind = kwarg(c, "kind")
         join = kwarg(c, "join_operator")
         nojoin = kwarg(c, "no_join_for_operators")
+        if isinstance(nojoin, ast.Name) and isinstance(env.get(nojoin.id), ast.Set):
+            nojoin = env[nojoin.id]   # a set literal shared through a local
         patv = pat.value if isinstance(pat, ast.Constant) else None
         seen_pat.add(patv)
         for flag in (True, False):
@@ -832,7 +834,7 @@ def r4(ctx):
     if isinstance(rhs, ast.BinOp) and isinstance(rhs.op, ast.Add) and isinstance(rhs.left, ast.Call) and isinstance(rhs.left.func, ast.Name) \
             and is_const(rhs.right, 1) and [norm(a) for a in rhs.left.args] == ["tokens"] and not rhs.left.keywords:
         helper = rhs.left.func.id
-    ctx.check(helper is not None and helper.lstrip("_") == "find_rhs_index", "C01.R4", "rhs_index is one past the top-level `~`", f.where,
+    ctx.check(helper is not None, "C01.R4", "rhs_index is one past the top-level `~`", f.where,
               ctx.construct(f, text="rhs_index"), f"rhs_index = `{norm(rhs) if rhs is not None else None}`")
     fr = P.functions.get(f"{f.qualname}.<locals>.{helper}") or P.functions.get(f"{f.module.name}.{helper}") if helper else None
     if fr is None:
@@ -845,7 +847,10 @@ def r4(ctx):
               ctx.construct(fr, text="find_rhs_index"), "the top-level `~` search must skip bracketed tokens and return -1 when absent")
     # finally the inserted signs are merged with adjacent sign tokens
     mg = [c for c in ast.walk(fn) if isinstance(c, ast.Call) and dotted(c.func) == "merge_operator_tokens"]
-    ok = len(mg) == 1 and isinstance(kwarg(mg[0], "symbols"), ast.Set) and sorted(const_value(x) for x in kwarg(mg[0], "symbols").elts) == ["+", "-"]
+    sy = kwarg(mg[0], "symbols") if len(mg) == 1 else None
+    if isinstance(sy, ast.Name) and isinstance(env.get(sy.id), ast.Set):
+        sy = env[sy.id]
+    ok = len(mg) == 1 and isinstance(sy, ast.Set) and sorted(const_value(x) for x in sy.elts) == ["+", "-"]
     last_ret = returns_of(fn)
     ctx.check(ok and len(last_ret) == 1 and isinstance(last_ret[0].value, ast.Name), "C01.R4",
               "inserted +/- are merged with adjacent sign tokens before resolution", f.where, ctx.construct(f, text="merge_operator_tokens"),
@@ -905,9 +910,10 @@ def r5(ctx):
         io = []
     if len(io) == 1:
         # values with the constructor's locals substituted (`key = …; self._factor_key = key` reads as `self._factor_key = …`)
+        frozen = {e.targets[0].id: e.value for e in io[0].effects if isinstance(e, ast.Assign) and len(e.targets) == 1 and isinstance(e.targets[0], ast.Name)}
         for e in io[0].effects:
             if isinstance(e, ast.Assign) and len(e.targets) == 1 and isinstance(e.targets[0], ast.Attribute) and dotted(e.targets[0].value) == "self":
-                attrs[e.targets[0].attr] = e.value
+                attrs[e.targets[0].attr] = sym.subst(e.value, frozen) if frozen else e.value
     ctx.look(4)
     fac = attrs.get("factors")
     ok = fac is not None and re.fullmatch(r"tuple\((dict\.fromkeys|OrderedSet)\(factors\)\)", norm(fac)) is not None
